@@ -167,6 +167,8 @@ def check_option(sh, Option, flags, short, default):
     for bit, tb in ((O_BOOL, Option.BOOLEAN), (O_INT, Option.INTEGER), (O_FLOAT, Option.FLOAT), (O_STR, Option.STRING)):
         if flags & bit and not f & tb:
             sh.violate("post-requested-type", case, "requested type bit %d not reported" % bit)
+    if (flags, short) == (defined, None):
+        check_set_default_later(sh, o, case, o.is_multi_valued(), o.accepts_value(), "option")
     # undefined bits never change anything
     if flags != defined:
         o2, _ = build(Option, "opt", short, defined, "d", default)
@@ -214,10 +216,43 @@ def check_argument(sh, Argument, flags, default):
     for bit, tb in ((A_BOOL, Argument.BOOLEAN), (A_INT, Argument.INTEGER), (A_FLOAT, Argument.FLOAT), (A_STR, Argument.STRING)):
         if flags & bit and not f & tb:
             sh.violate("post-requested-type", case, "requested type bit %d not reported" % bit)
+    if flags == defined:
+        check_set_default_later(sh, a, case, a.is_multi_valued(), not a.is_required(), "argument")
     if flags != defined:
         a2, _ = build(Argument, "arg", defined, "d", default)
         if a2 is None or argument_view(a, Argument) != argument_view(a2, Argument):
             sh.violate("undefined-bits", case, "undefined bits changed the object")
+
+
+def check_set_default_later(sh, obj, case, is_multi, accepts, label):
+    """set_default() on a constructed object: accepted values are stored (a list for multi-valued ones), refused
+    ones raise ValueError and leave the object as it was - it stays consistent either way."""
+    for new in ("later", ["l1", "l2"], None, 0):
+        before = obj.default
+        before_copy = list(before) if isinstance(before, list) else before
+        try:
+            obj.set_default(new)
+            ok = True
+        except ValueError:
+            ok = False
+        except Exception as e:
+            sh.violate("set-default-later", case, "%s.set_default(%r) raised %r" % (label, new, e))
+            return
+        sh.count("set_default_calls")
+        want_ok = accepts and (isinstance(new, list) or new is None if is_multi else True)
+        if ok != want_ok:
+            sh.violate("set-default-later", case, "%s.set_default(%r) %s, expected it to be %s" % (label, new, "was accepted" if ok else "raised ValueError", "accepted" if want_ok else "refused"))
+            return
+        after = obj.default
+        if not ok:
+            if after is not before or (isinstance(after, list) and after != before_copy):
+                sh.violate("set-default-later", case, "%s.set_default(%r) was refused but the default changed from %r to %r" % (label, new, before_copy, after))
+                return
+        else:
+            want = ([] if new is None else new) if is_multi else new
+            if after != want or (is_multi and not isinstance(after, list)):
+                sh.violate("set-default-later", case, "after %s.set_default(%r) the default is %r" % (label, new, after))
+                return
 
 
 # ---- names -----------------------------------------------------------------
